@@ -839,6 +839,7 @@ func evcRunACase(col *evcCol, cs evcACase, k *ctl) {
 			rng := rand.New(rand.NewSource(cs.Seed ^ 0x77))
 			buf := make([]byte, 256<<10)
 			var off int64
+			bad := false
 			for {
 				chunk := 1 + rng.Intn(len(buf))
 				if rng.Intn(3) == 0 {
@@ -854,13 +855,17 @@ func evcRunACase(col *evcCol, cs evcACase, k *ctl) {
 							n = 0
 						}
 					}
-					if i := checkKeyed(buf[:n], key, uint64(off)); i >= 0 {
-						violate("raw reader: byte at stream offset %d is %#02x, written was %#02x", off+int64(i), buf[i], keyedByte(key, uint64(off)+uint64(i)))
-						atomic.StoreInt64(&rawGot, -1)
-						return
+					if !bad {
+						if i := checkKeyed(buf[:n], key, uint64(off)); i >= 0 {
+							violate("raw reader: byte at stream offset %d is %#02x, written was %#02x", off+int64(i), buf[i], keyedByte(key, uint64(off)+uint64(i)))
+							bad = true // keep the connection flowing, stop judging
+							atomic.StoreInt64(&rawGot, -1)
+						}
 					}
 					off += int64(n)
-					atomic.StoreInt64(&rawGot, off)
+					if !bad {
+						atomic.StoreInt64(&rawGot, off)
+					}
 				}
 				if err != nil || n == 0 && chunk > 0 && err == nil {
 					return
@@ -1651,14 +1656,14 @@ func evcWorker(tier string, seed int64, race bool, reportPath string) *evcCol {
 	ensureDefaultDispatcherInit()
 	fenceInit()
 	thorough := tier == "thorough"
-	nA, nB := 60, 20
+	nA, nB := 60, 30
 	if thorough {
-		nA, nB = 3000, 1000
+		nA, nB = 3000, 1500
 	}
 	if race {
-		nA, nB = 12, 6
+		nA, nB = 12, 9
 		if thorough {
-			nA, nB = 240, 120
+			nA, nB = 240, 180
 		}
 	}
 	switch os.Getenv("VERIF_EVC_ONLY") { // debugging aid only
@@ -1698,6 +1703,9 @@ func evcWorker(tier string, seed int64, race bool, reportPath string) *evcCol {
 			evcRunBCase(col, cs)
 			col.timing(fmt.Sprintf("%s %.2fs %+v", name, time.Since(t0).Seconds(), cs))
 		}()
+	}
+	if os.Getenv("VERIF_EVC_PROBE") != "" { // debugging aid only: write immediately followed by close
+		evcProbeClose(col)
 	}
 	col.count("hook hits ConnWriteEnter", int64(atomic.LoadUint64(&verifHookHits[vpConnWriteEnter])))
 	col.count("hook hits ConnWriteEAGAIN", int64(atomic.LoadUint64(&verifHookHits[vpConnWriteEAGAIN])))
@@ -1857,4 +1865,33 @@ func checkEvconn(c *checkCtx) {
 	if info != "" {
 		c.setExtra("race_pass_exit", truncate(info, 500))
 	}
+}
+
+// evcProbeClose (not part of the verdict): the peer writes n bytes and closes at once; does the callback see all n bytes
+// before onRemoteClose? (handleEvent returns on EPOLLRDHUP without reading.)
+func evcProbeClose(col *evcCol) {
+	lost, runs := 0, 0
+	for i := 0; i < 200; i++ {
+		fds, err := syscall.Socketpair(syscall.AF_UNIX, syscall.SOCK_STREAM, 0)
+		if err != nil {
+			return
+		}
+		n := 1 + i*37%5000
+		cb := &evcNullCb{}
+		h := defaultDispatcher.newConnection(os.NewFile(uintptr(fds[1]), "probe")).(*connEventHandler)
+		if h.setCallback(cb) != nil {
+			return
+		}
+		buf := make([]byte, n)
+		_, _ = syscall.Write(fds[0], buf)
+		_ = syscall.Close(fds[0])
+		waitUntil(5*time.Second, func() bool { fenceOnce(time.Second); return atomic.LoadInt32(&cb.closed) == 1 })
+		runs++
+		if atomic.LoadInt64(&cb.got) != int64(n) {
+			lost++
+		}
+		fence()
+	}
+	col.count("probe: write+close runs", int64(runs))
+	col.count("probe: write+close runs that lost the tail", int64(lost))
 }
